@@ -237,6 +237,8 @@ func signalRecalculate(release *v1beta1.BatchRelease, newStatus *v1beta1.BatchRe
 	if release.Spec.ReleasePlan.BatchPartition != nil && release.Spec.ReleasePlan.RolloutID == observedRolloutID {
 		// ensure current batch upper bound
 		currentBatch = integer.Int32Min(*release.Spec.ReleasePlan.BatchPartition, int32(len(release.Spec.ReleasePlan.Batches)-1))
+		// and its lower bound: nothing validates batchPartition, and a negative batch index crashes the next reconcile
+		currentBatch = integer.Int32Max(currentBatch, 0)
 	}
 
 	klog.Infof("BatchRelease(%v) canary batch changed from %v to %v when the release plan changed, observed-rollout-id: %s, current-rollout-id: %s",
